@@ -62,6 +62,10 @@ impl<'a> Walker<'a> {
                         let h = hidden || k.starts_with("__");
                         self.value(&format!("{path}.{k}"), &e, h, f);
                     }
+                    // inherited variables live in the parent instance (EXTENDS): same name path
+                    if let Some(parent) = inst.parent {
+                        self.value(path, &Value::Instance(parent), hidden, f);
+                    }
                 }
                 self.visiting.pop();
             }
